@@ -9,6 +9,7 @@
        [ev |-> "observe",  t]          as_completed hands the future of task t to the loop
        [ev |-> "forend"]               that as_completed iteration is exhausted
        [ev |-> "yield",    t, exc]     the consumer received the Result of task t (exc: it carries a captured exception)
+       [ev |-> "cancel"]               the consumer set the stop event carried by the Result it just received
        [ev |-> "end"]                  the generator returned
 
    What is NOT logged is the environment: a worker finishing task t (Complete(t)).  It is composed as a silent step, bounded by
@@ -30,16 +31,16 @@ SeqRange(s) == {s[i] : i \in 1..Len(s)}
 TraceInit == /\ \E i \in 1..Len(Traces) :
                   /\ id = i /\ mode = Traces[i].mode /\ raises = SeqRange(Traces[i].raises)
              /\ unsub = 1 /\ pending = {} /\ finished = {} /\ futures = {} /\ snap = {}
-             /\ yielded = <<>> /\ pc = "Start" /\ cur = 0
+             /\ yielded = <<>> /\ pc = "Start" /\ cur = 0 /\ stop = FALSE
              /\ l = 1
              /\ TLCSet(1, {})
              /\ TLCSet(2, [i \in 1..Len(Traces) |-> 0])
 
-IsYield(k, t) == EvAt(k).ev = "yield" /\ EvAt(k).t = t /\ EvAt(k).exc = (t \in raises)
+IsYield(k, r) == EvAt(k).ev = "yield" /\ EvAt(k).t = r.t /\ EvAt(k).exc = r.exc
 
-TSingle == Single /\ IsYield(l, 1) /\ l' = l + 1
-TSeqStep == /\ SeqStep
-            /\ IF unsub <= NT THEN IsYield(l, unsub) /\ l' = l + 1 ELSE l' = l
+TSingle == Single /\ IsYield(l, Res(1)) /\ l' = l + 1
+TSeqStep == /\ SeqStep /\ EvAt(l).ev # "cancel"
+            /\ IF unsub <= NT THEN IsYield(l, ResSeq(unsub)) /\ l' = l + 1 ELSE l' = l
 TEmpty == Empty /\ l' = l
 \* the initial burst: submit events for tasks 1..k in payload order, k = the size of the window (or every task: thread branch)
 TInitialSubmit == /\ InitialSubmit
@@ -48,7 +49,7 @@ TInitialSubmit == /\ InitialSubmit
                      /\ l' = l + k
 \* `while futures:` then `as_completed(futures)`: the snapshot logged by the wrapper must be the loop's dict of futures
 TWhile == /\ While
-          /\ IF futures = {} THEN l' = l
+          /\ IF futures = {} \/ stop THEN l' = l
              ELSE EvAt(l).ev = "snapshot" /\ SeqRange(EvAt(l).ts) = futures /\ l' = l + 1
 \* the environment, inferred: the worker finished task t some time before as_completed handed it over
 TComplete == /\ EvAt(l).ev = "observe" /\ EvAt(l).t \in pending /\ Complete(EvAt(l).t) /\ l' = l
@@ -57,11 +58,14 @@ TForEnd == ForEnd /\ EvAt(l).ev = "forend" /\ l' = l + 1
 \* the refill of the window: exactly one submit, of the next task in payload order, while tasks remain - whatever the result was
 TRefill == /\ Refill
            /\ IF unsub <= NT THEN EvAt(l).ev = "submit" /\ EvAt(l).t = unsub /\ l' = l + 1 ELSE l' = l
-TYield == Yield /\ IsYield(l, cur) /\ l' = l + 1
+TYield == Yield /\ IsYield(l, Res(cur)) /\ l' = l + 1
+\* the consumer's cancellation is logged; the generator's resumption is not (it waits for a pending cancel event)
+TCancel == Cancel /\ EvAt(l).ev = "cancel" /\ l' = l + 1
+TResume == Resume /\ EvAt(l).ev # "cancel" /\ l' = l
 TFinish == /\ pc = "Done" /\ l = Len(Tr) /\ EvAt(l).ev = "end" /\ l' = l + 1 /\ UNCHANGED vars
            /\ TLCSet(1, TLCGet(1) \cup {id})
 
-TNext == /\ \/ TSingle \/ TSeqStep \/ TEmpty \/ TInitialSubmit \/ TWhile \/ TComplete \/ TObserve \/ TForEnd \/ TRefill \/ TYield \/ TFinish
+TNext == /\ \/ TSingle \/ TSeqStep \/ TEmpty \/ TInitialSubmit \/ TWhile \/ TComplete \/ TObserve \/ TForEnd \/ TRefill \/ TYield \/ TCancel \/ TResume \/ TFinish
          /\ UNCHANGED id
          /\ TLCSet(2, [TLCGet(2) EXCEPT ![id] = IF l' > @ THEN l' ELSE @])        \* longest prefix matched, for the rejection report
 
